@@ -4,3 +4,4 @@ pub mod faults;
 pub mod c15;
 pub mod c16;
 pub mod c07;
+pub mod c01;
